@@ -1,5 +1,17 @@
+//! Pairing-layer monitor: C06 (pairings are bilinear, non-degenerate and identity-preserving in
+//! every model).
 use monitor::*;
+use std::time::Instant;
+
+mod c06;
+
 fn main() {
     let args = Args::parse();
-    panic!("mon_pair does not serve property {} yet", args.prop);
+    let t0 = Instant::now();
+    let (items, rule): (Vec<Item>, &str) = match args.prop.as_str() {
+        "C06" => (c06::items(&args), c06::RULE),
+        p => panic!("mon_pair does not serve property {p}"),
+    };
+    let rep = run_items(&args, items);
+    finish(&args, "mon_pair", rule, rep, t0)
 }
